@@ -28,9 +28,15 @@ pub enum Client {
     ResetBeforeRequest,
     ResetAfterRequest,
     CloseBeforeReadingResponse,
+    /// the request arrives in two segments, the cut 1 / 2 / 3 octets into the CRLFCRLF terminator
+    SplitInTerminator1,
+    SplitInTerminator2,
+    SplitInTerminator3,
+    /// one octet per segment
+    SplitBytewise,
 }
 
-pub const CLIENTS: [Client; 11] = [
+pub const CLIENTS: [Client; 15] = [
     Client::WellFormedGet,
     Client::CloseAfter0,
     Client::CloseAfterPartial,
@@ -42,6 +48,10 @@ pub const CLIENTS: [Client; 11] = [
     Client::ResetBeforeRequest,
     Client::ResetAfterRequest,
     Client::CloseBeforeReadingResponse,
+    Client::SplitInTerminator1,
+    Client::SplitInTerminator2,
+    Client::SplitInTerminator3,
+    Client::SplitBytewise,
 ];
 
 #[derive(Clone, Copy, Debug, PartialEq, Eq, Hash, serde::Serialize, serde::Deserialize)]
@@ -80,13 +90,47 @@ fn reset(s: TcpStream) {
 
 const GET: &[u8] = b"GET /metrics HTTP/1.1\r\nHost: localhost\r\n\r\n";
 
-/// perform one client behaviour; never blocks for long
-pub fn act(port: u16, c: Client) {
-    let Some(mut s) = connect(port) else { return };
+/// how long a client that sent a complete well-formed request keeps its connection open waiting
+/// for the answer (a healthy exporter answers within milliseconds)
+const ANSWER_DEADLINE: Duration = Duration::from_secs(6);
+
+/// write the request in the given pieces, pausing so that each piece is its own TCP segment and
+/// its own read() on the server side
+fn write_pieces(s: &mut TcpStream, pieces: &[&[u8]], pause: Duration) {
+    let _ = s.set_nodelay(true);
+    for (i, p) in pieces.iter().enumerate() {
+        let _ = s.write_all(p);
+        let _ = s.flush();
+        if i + 1 < pieces.len() {
+            std::thread::sleep(pause);
+        }
+    }
+}
+
+/// perform one client behaviour; never blocks for long. For behaviours that deliver a complete
+/// well-formed request and wait for the reply: Some(whether a complete response arrived).
+pub fn act(port: u16, c: Client) -> Option<bool> {
+    let mut s = connect(port)?;
+    let mut answered = None;
     match c {
         Client::WellFormedGet => {
             let _ = s.write_all(GET);
-            let _ = read_response(&mut s, Duration::from_millis(500));
+            answered = Some(read_response(&mut s, ANSWER_DEADLINE).is_ok());
+        }
+        Client::SplitInTerminator1 | Client::SplitInTerminator2 | Client::SplitInTerminator3 => {
+            let k = match c {
+                Client::SplitInTerminator1 => 1,
+                Client::SplitInTerminator2 => 2,
+                _ => 3,
+            };
+            let cut = GET.len() - 4 + k;
+            write_pieces(&mut s, &[&GET[..cut], &GET[cut..]], Duration::from_millis(40));
+            answered = Some(read_response(&mut s, ANSWER_DEADLINE).is_ok());
+        }
+        Client::SplitBytewise => {
+            let pieces: Vec<&[u8]> = GET.chunks(1).collect();
+            write_pieces(&mut s, &pieces, Duration::from_millis(3));
+            answered = Some(read_response(&mut s, ANSWER_DEADLINE).is_ok());
         }
         Client::CloseAfter0 => {}
         Client::CloseAfterPartial => {
@@ -108,26 +152,25 @@ pub fn act(port: u16, c: Client) {
             let _ = s.read(&mut t);
         }
         Client::SplitWrites => {
-            for chunk in GET.chunks(7) {
-                let _ = s.write_all(chunk);
-                std::thread::sleep(Duration::from_millis(2));
-            }
-            let _ = read_response(&mut s, Duration::from_millis(500));
+            let pieces: Vec<&[u8]> = GET.chunks(7).collect();
+            write_pieces(&mut s, &pieces, Duration::from_millis(5));
+            answered = Some(read_response(&mut s, ANSWER_DEADLINE).is_ok());
         }
         Client::ResetBeforeRequest => {
             reset(s);
-            return;
+            return None;
         }
         Client::ResetAfterRequest => {
             let _ = s.write_all(GET);
             reset(s);
-            return;
+            return None;
         }
         Client::CloseBeforeReadingResponse => {
             let _ = s.write_all(GET);
         }
     }
     drop(s);
+    answered
 }
 
 #[derive(Debug)]
@@ -191,8 +234,8 @@ pub struct Seq {
 }
 
 pub fn run(rep: &mut Report, tier: &str, seed: u64, shard: (u32, u32), replay: Option<&str>) {
-    rep.rule = "sequences of client behaviours (well-formed GET, close after 0 / partial / header-less bytes, 2048 and 4096 bytes without terminator, non-GET verb, split writes, TCP reset before and after the request, close before reading the response) x observation-socket behaviours (valid JSON, truncated, invalid, refused, accept-then-close), each followed by a well-formed probe; every single behaviour x observation behaviour is enumerated, longer sequences (<= 4) are seeded samples (all pairs in thorough); the exporter is restarted after each wedging sequence; distinct = distinct sequences".into();
-    rep.require(&["sequence_run", "probe_ok", "probe_ok_error_status"]);
+    rep.rule = "sequences of client behaviours (well-formed GET, close after 0 / partial / header-less bytes, 2048 and 4096 bytes without terminator, non-GET verb, split writes (7-octet pieces, one octet per segment, and two segments cut 1/2/3 octets into the CRLFCRLF terminator; each must be answered while the client waits), TCP reset before and after the request, close before reading the response) x observation-socket behaviours (valid JSON, truncated, invalid, refused, accept-then-close), each followed by a well-formed probe; every single behaviour x observation behaviour is enumerated, longer sequences (<= 4) are seeded samples (all pairs in thorough); the exporter is restarted after each wedging sequence; distinct = distinct sequences".into();
+    rep.require(&["sequence_run", "probe_ok", "probe_ok_error_status", "well_formed_request_answer_checked"]);
     let valid_json: Vec<u8> = {
         // a valid state: take it from a live default instance
         let b = crate::drive::Build::new(0x42).build().expect("build");
@@ -267,8 +310,18 @@ pub fn run(rep: &mut Report, tier: &str, seed: u64, shard: (u32, u32), replay: O
         let mut first_wedger: Option<Client> = None;
         for (c, o) in &seq.steps {
             ctx.obs.set(obs_mode(*o, &valid_json));
-            act(ctx.exp.port, *c);
+            let answered = act(ctx.exp.port, *c);
             rep.ev(&format!("client_{c:?}"));
+            if let Some(a) = answered {
+                rep.ev("well_formed_request_answer_checked");
+                if !a && ctx.exp.exited().is_none() {
+                    rep.violation(
+                        &format!("C20|well-formed-request-unanswered|{c:?}"),
+                        &format!("a complete well-formed GET delivered as {c:?} (observation socket: {o:?}) got no complete HTTP response within {} s although the client kept the connection open; the exporter is still running", ANSWER_DEADLINE.as_secs()),
+                        replay_v.clone(),
+                    );
+                }
+            }
             rep.ev(&format!("obs_{o:?}"));
             std::thread::sleep(Duration::from_millis(3));
             if ctx.exp.exited().is_some() && first_wedger.is_none() {
